@@ -53,6 +53,7 @@ def tolerance(rel, name, kw):
     return LOOSE
   return TIGHT
 
+
 TAGS = {'Covariance': 'covariance:Covariance.fit', 'LFDA': 'lfda:LFDA.fit', 'LMNN': 'lmnn:LMNN.fit', 'NCA': 'nca:NCA.fit',
         'MLKR': 'mlkr:MLKR.fit', 'RCA': 'rca:RCA.fit', 'RCA_Supervised': 'rca:RCA_Supervised.fit',
         'ITML': 'itml:_BaseITML._fit', 'ITML_Supervised': 'itml:_BaseITML._fit', 'MMC': 'mmc:_BaseMMC._fit',
@@ -75,7 +76,10 @@ def make_dataset(seed, idx):
   ncls = 3
   y = np.repeat(np.arange(ncls), per)
   n = len(y)
-  for _ in range(100):
+  for attempt in range(400):
+    if attempt and attempt % 40 == 0:      # too crowded for distinct rows on this grid: refine it
+      k += 1
+      q = 2 ** k
     centers = rng.randint(-6, 7, size=(ncls, d)).astype(float)
     X = centers[y] + rng.randint(-3 * q, 3 * q + 1, size=(n, d)) / float(q)
     Xc = X - X.mean(axis=0)
@@ -294,9 +298,11 @@ def check_case(ml, D, rel, name, variant, builder):
     return dict(tag='%s-invariance' % rel, observed='fit on the %s data raises %s (%s) while the other fit succeeds' % (o, r[1], r[2]),
                 input=inp, signature=sig + ' [one fit raises %s]' % r[1])
   d1, d2 = base[1], other[1]
-  if not np.all(np.isfinite(d1)) or not d1.any():
-    if np.array_equal(np.isfinite(d1), np.isfinite(d2)) and (np.all(np.isfinite(d1)) == np.all(np.isfinite(d2))):
-      return 'trivial'
+  if not np.all(np.isfinite(d1)):
+    if np.array_equal(np.isfinite(d1), np.isfinite(d2)):
+      return 'trivial'            # the base fit is not a well-formed (finite) model, and the transformed one fails alike
+  elif not d1.any() and not d2.any():
+    return 'trivial'              # nothing learned (all-zero metric) in both runs
   if not np.all(np.isfinite(d2)) or not np.all(np.isfinite(d1)):
     return dict(tag='%s-invariance' % rel, observed='distances original %r, transformed %r' % (d1.tolist(), d2.tolist()), input=inp,
                 signature=sig + ' [non-finite on one side]')
@@ -377,24 +383,21 @@ def run(tier, seed):
               rule='%d dyadic-grid datasets (24-33 points, 2-4 features, 3 classes, grid 1 .. 1/8) x relations {translation: all 17 learners; pair-swap: ITML, MMC, SDML, LSML; '
                    'sample-order: Covariance, RCA; orthogonal signed-permutation map: Covariance, RCA, LFDA, LMNN(identity), ITML, LSML, MMC; scaling by 2^j: Covariance, RCA}; '
                    'each case = two real fits with identical hyper-parameters compared through pair_distance on <= 10 query pairs; '
-                   'non-trivial = both fits return finite, not all-zero distances; distinct = (relation, learner, options, dataset)' % n_datasets(tier),
+                   'non-trivial = both fits return finite, not all-zero distances; distinct = (relation, learner, options, dataset, transformation)' % n_datasets(tier),
               bound='%d datasets; small iteration budgets (LMNN 12, NCA/MLKR 5, ITML 60, MMC 15, LSML 20, SCML 600); one violation per signature (max 40)' % n_datasets(tier),
               standin_samples=samples, violations=vio)
 
 
 def replay_clause(cid, fail, seed):
+  """first failing quick case of the learner named by the obligation id (e.g. 'itml:_BaseITML._fit[...]/...'), else any"""
   target = cid.split('[')[0]
-  names = [n for n in PUBLIC if TAGS[n] == target or n.lower() in cid.lower().split(':')[0:1]]
-  first = None
-  for desc, tags, thunk in cases('quick', seed):
-    if names and tags[0] not in [TAGS[n] for n in names]:
-      continue
-    bad = thunk()
-    if isinstance(bad, dict):
-      return dict(failing_input=bad['input'], observed='%s: %s' % (bad['tag'], bad['observed']))
-  if names:
+  module = target.split(':')[0]
+  wanted = [t for t in sorted(set(TAGS.values())) if t == target] or [t for t in sorted(set(TAGS.values())) if t.split(':')[0] == module]
+  for only in ([wanted] if wanted else []) + [None]:
     for desc, tags, thunk in cases('quick', seed):
+      if only is not None and tags[0] not in only:
+        continue
       bad = thunk()
-      if isinstance(bad, dict):
+      if bad:
         return dict(failing_input=bad['input'], observed='%s: %s' % (bad['tag'], bad['observed']))
   return dict(note='no failing input among the quick stand-in cases')
